@@ -25,7 +25,7 @@ ASSUMPTIONS = ["snapshot via deepcopy + toarray is trusted",
 @st.composite
 def cases(draw, tier):
     kind = draw(st.sampled_from(["count", "count", "int", "posdyadic",
-                                 "dyadic"]))
+                                 "dyadic", "frac"]))
     spec = draw(gen.table_specs(tier, values=kind, md=True, history=True))
     op = draw(alphabet.op_strategy())
     if draw(st.sampled_from([False] * 7 + [True])):
@@ -66,6 +66,12 @@ def battery(r):
         ids = [str(i) for i in r.ids(axis=axis)]
         r.add_metadata({i: {"leak": "L", "k": "overwritten"} for i in ids},
                        axis=axis)
+        # a rename that keeps every ID's width (fits arrays in place), then
+        # one that lengthens
+        same = {i: (i[:-1] + ("~" if i[-1] != "~" else "^")) for i in ids}
+        if len(set(same.values())) == len(ids):
+            r.update_ids(same, axis=axis, inplace=True)
+            ids = [same[i] for i in ids]
         r.update_ids({i: i + "~" for i in ids}, axis=axis, inplace=True)
     r.del_metadata(keys=["grp", "n", "taxonomy"], axis="whole")
     for axis in ("observation", "sample"):
